@@ -54,6 +54,10 @@ CHECKS = {
          "For every SET/POLL definition and every enumerated conforming payload the library can generate, parsing with SETPOLL returns the same mode, identity, attributes and bytes as parsing with the true mode (11 listed known findings: empty SET payloads, AID-ALM/AOP/EPH polls with members).",
          "conformance decided by the reference layout; payload contents limited to two fills; counted groups up to 3 members, variable-by-size up to 16.",
          "DESIGN.md §5 C17"),
+ "C18": ("exhaustive / lattice enumeration of the real scalar codec per attribute type and of each helper over its domain (all 1-/2-byte values, byte lattices, all 65,536 float high halves, all byte strings up to a bound for checksums, every millisecond of windows or of a week, all mask/bitfield pairs, all 2-byte prefixes); oracle = reference codec + inverse laws",
+         "Over the enumerated domains val2bytes/bytes2val are inverses with the type's width, out-of-range values are refused, nomval encodes to zeros, calc_checksum/isvalid_checksum equal the reference Fletcher, and utc2itow/itow2utc, val2sphp, get_bits, protocol, att2idx/att2name satisfy their consistency laws.",
+         "interior values of 3..8-byte types outside the lattice are not enumerated; NaN payloads compared modulo quieting (O13); known finding: wrong-length C values accepted.",
+         "DESIGN.md §5 C18"),
 }
 NOT_YET = "check not built yet in this round (planned: see DESIGN.md §5)"
 
